@@ -10,48 +10,50 @@ import concurrent.futures as cf
 from vlib import *
 
 DIFF = {1: "handler error flag", 2: "synced-to stamp", 3: "ChainSynced", 4: "stored block hashes",
-        5: "confirmed transaction records", 6: "unconfirmed transaction records"}
+        5: "confirmed transaction records", 6: "unconfirmed transaction records", 9: "observation does not decode"}
 
 
-def n(x):
-    return "%d%%N" % x
-
-
-def z(x):
-    return "(%d)%%Z" % x
+def zi(x):
+    return str(x) if x >= 0 else "(%d)" % x
 
 
 def r_meta(m):
-    return "{| m_height := %s; m_hash := %s; m_time := %s |}" % (z(m["h"]), n(m["hash"]), z(m["t"]))
+    return "(mk %s %s %s)" % (zi(m["h"]), zi(m["hash"]), zi(m["t"]))
 
 
 def r_segs(runs):
-    return clist(["(%d%%nat, %s, %s, %s)" % (r[0], n(r[1]), z(r[2]), z(r[3])) for r in runs])
+    return clist(["sg %s %s %s %s" % tuple(zi(x) for x in r) for r in runs])
 
 
 def r_obs(o):
     if o is None:
-        return "None"
-    probes = clist(["(%s, %s)" % (z(p[0]), "None" if p[1] < 0 else "Some %s" % n(p[1])) for p in o["probes"]])
-    mined = clist(["(%s, %s, %s)" % (n(m[0]), z(m[1]), n(m[2])) for m in o["mined"]])
-    return ("Some {| o_err := %s; o_synced := %s; o_chain_synced := %s; o_probes := %s; o_mined := %s; o_unmined := %s |}" % (
-        cbool(o["err"]), r_meta(o["synced"]), cbool(o["chain_synced"]), probes, mined,
-        clist([n(t) for t in o["unmined"]])))
+        return "[]"
+    xs = [int(o["err"]), o["synced"]["h"], o["synced"]["hash"], o["synced"]["t"], int(o["chain_synced"]), len(o["probes"])]
+    for p in o["probes"]:
+        xs += [p[0], p[1] + 1]
+    xs.append(len(o["mined"]))
+    for m in o["mined"]:
+        xs += list(m)
+    xs.append(len(o["unmined"]))
+    xs += list(o["unmined"])
+    return clist([zi(x) for x in xs])
 
 
 def r_event(e):
     k = e["k"]
     if k == "connect":
-        op = "CNtfn (NConnect %s)" % r_meta(e["b"])
+        op = "conn %s %s %s" % (zi(e["b"]["h"]), zi(e["b"]["hash"]), zi(e["b"]["t"]))
     elif k == "disconnect":
-        op = "CNtfn (NDisconnect %s)" % r_meta(e["b"])
+        op = "disc %s %s %s" % (zi(e["b"]["h"]), zi(e["b"]["hash"]), zi(e["b"]["t"]))
     elif k == "tx":
-        b = "(Some %s)" % r_meta(e["b"]) if e.get("b") else "None"
-        op = "CNtfn (NTx %s %s %s)" % (n(e["tx"]), cbool(e.get("cb", False)), b)
+        if e.get("b"):
+            op = "txm %d %s %s %s %s" % (e["tx"], cbool(e.get("cb", False)), zi(e["b"]["h"]), zi(e["b"]["hash"]), zi(e["b"]["t"]))
+        else:
+            op = "txu %d" % e["tx"]
     elif k == "startup":
         op = "CStartup %s" % r_segs(e["backend"])
     elif k == "rescan_finished":
-        op = "CRescanFinished %s %s" % (r_segs(e["backend"]), z(e["height"]))
+        op = "CRescanFinished %s %s" % (r_segs(e["backend"]), zi(e.get("height", 0)))
     elif k == "reopen":
         op = "CReopen"
     elif k == "set_synced":
@@ -60,7 +62,7 @@ def r_event(e):
         op = "CSetBirthday"
     else:
         raise ValueError(k)
-    return "(%s,\n    %s)" % (op, r_obs(e.get("obs")))
+    return "(%s, %s)" % (op, r_obs(e.get("obs")))
 
 
 def r_case(c):
@@ -111,6 +113,7 @@ class C15(Check):
         return """From stdpp Require Import gmap list numbers.
 From Coq Require Import ZArith NArith.
 From Verif Require Import Sync.Sync Sync.SyncCorr.
+Local Open Scope Z_scope.
 Definition cases : list scase :=
 %s.
 Definition bad := Eval vm_compute in failures cases.
